@@ -76,6 +76,23 @@ def check_slicing_theory():
     return bad
 
 
+def check_deserialize_aliasing():
+    """assumed contract of onnx_ir used by C15: initializers of a deserialized model are views of the caller's TensorProtos, and
+    renaming the ir.Value writes the TensorProto's name"""
+    import onnx
+    import onnx_ir as ir
+    from onnx import TensorProto, helper, numpy_helper
+    g = helper.make_graph([helper.make_node("Add", ["x", "w"], ["y"])], "g", [helper.make_tensor_value_info("x", TensorProto.FLOAT, [2])],
+                          [helper.make_tensor_value_info("y", TensorProto.FLOAT, [2])],
+                          initializer=[numpy_helper.from_array(np.array([1, 2], np.float32), "w")])
+    m = helper.make_model(g, opset_imports=[helper.make_opsetid("", 18)])
+    mi = ir.serde.deserialize_model(m)
+    mi.graph.initializers["w"].name = "renamed"
+    bad = 0 if m.graph.initializer[0].name == "renamed" else 1
+    print("onnx_ir: renaming a deserialized initializer writes the source TensorProto (assumed by C15): mismatches", bad)
+    return bad
+
+
 if __name__ == "__main__":
-    total = check_slice_indices() + check_casting() + check_slicing_theory()
+    total = check_slice_indices() + check_casting() + check_slicing_theory() + check_deserialize_aliasing()
     sys.exit(1 if total else 0)
